@@ -331,6 +331,13 @@ ExecOp(S, p) ==
             ELSE Emit([S EXCEPT !.proc[p].pc = @ + 1, !.halt = TRUE,
                                 !.obs.sent[p][target.p] = Append(@, m)],
                       [t |-> "DeliverAction", to |-> target.p, m |-> m])
+    [] op.op = "retsend" ->        \* a send that is the last instruction: the action leaves and the process finishes
+         LET target == P.regs[op.to]
+             m == Eval(op.val, P.regs)
+         IN IF target.k # "pid" THEN Fail(S, p, "TypeMismatch")
+            ELSE Emit([S EXCEPT !.proc[p].result = Some(OkR(target)), !.halt = TRUE,
+                                !.obs.sent[p][target.p] = Append(@, m)],
+                      [t |-> "DeliverAction", to |-> target.p, m |-> m])
     [] op.op = "select" -> ExecSelect(S, p)
     [] op.op = "let"    -> [S EXCEPT !.proc[p].regs[op.dst] = Eval(op.val, P.regs), !.proc[p].pc = @ + 1]
     [] op.op = "selfpid" -> [S EXCEPT !.proc[p].regs[op.dst] = PidV(p), !.proc[p].pc = @ + 1]
